@@ -140,6 +140,10 @@ def build_workchain(block, tabs, name='GenChain', alias=False, required_output=F
     def mk_step(f):
         def body(self):
             r = self._oracle.step(f)
+            if isinstance(r, (tuple, list)) and r[0] == 'M':
+                # the value is a Mapping that is NOT a dict (a read-only view): not a context assignment, so it stops the chain
+                import types
+                return types.MappingProxyType({'verif_token': r[1]})
             if isinstance(r, (tuple, list)) and r[0] == 'W':
                 # the VALUE the step returns is itself an awaitable object (a resolved future, e.g. `child.future()` handed on as
                 # the result): neither None nor a context assignment, so the chain stops at once with THAT OBJECT as its result
@@ -233,6 +237,9 @@ def result_token(v):
         return 't'
     if hasattr(v, 'verif_token'):          # the future object a step returned as its value
         return f'v{v.verif_token}'
+    import types
+    if isinstance(v, types.MappingProxyType) and 'verif_token' in v:
+        return f"v{v['verif_token']}"
     return f'v{v}'
 
 
@@ -359,7 +366,7 @@ def random_tabs(rng, ids=4, stop_prob=0.08, with_awaitable=False):
         vals = []
         for _ in range(n):
             r = rng.random()
-            vals.append(rng.randint(0, 9) if r < stop_prob else ('A', rng.randint(0, 9)) if (with_awaitable and r < stop_prob + 0.04) else ('W', rng.randint(0, 9)) if (with_awaitable and r < stop_prob + 0.07) else 'T' if r < 0.35 else None)
+            vals.append(rng.randint(0, 9) if r < stop_prob else ('A', rng.randint(0, 9)) if (with_awaitable and r < stop_prob + 0.04) else ('W', rng.randint(0, 9)) if (with_awaitable and r < stop_prob + 0.07) else ('M', rng.randint(0, 9)) if (with_awaitable and r < stop_prob + 0.10) else 'T' if r < 0.35 else None)
         tabs['S'][f] = vals
     for p in range(ids + 8):
         n = rng.randint(0, 5)
